@@ -121,13 +121,30 @@ def lock(ctx, report, rule, facts, config):
                 reads.setdefault(b.qname, []).append(b.loc(bb))
             elif ("RwLock" in c.path or "Mutex" in c.path) and c.name in ("write", "try_write", "lock", "try_lock"):
                 writes.setdefault(b.qname, []).append(b.loc(bb))
-    want_w = set([A.DB + "::add_pool", A.DB + "::build", A.DB + "::build_async"])
+    want_w = [A.DB + "::add_pool", A.DB + "::build", A.DB + "::build_async"]
     want_r = set([A.SD + "::dispatch_par", A.AD + "::dispatch"])
-    for q in sorted(set(writes) | want_w):
-        report.ob(rule, "write/%s" % q, q in want_w and q in writes,
-                  "exclusive lock taken only while configuring the builder" if q in want_w and q in writes else
-                  ("an exclusive lock is taken in %s: a panic while it is held poisons the pool slot for every later dispatch" % q if q in writes else "expected write lock site missing"),
-                  site=(writes.get(q) or [None])[0], config=config)
+    # an exclusive lock is fine while the builder is being configured and never where systems run: no write-lock site
+    # lies in the call cone of a run-family method, every one lies in the cone of a DispatcherBuilder method
+    run_roots = [b for b in facts.bodies.values() if not b.is_closure and b.name in F.LIFECYCLE[F.RUN] | set(["wait", "wait_without_tl", "setup", "dispose"])
+                 and (b.self_head in (A.SD, A.DISP, A.AD, A.STAGE, A.PARSEQ, A.BCS, A.MD) or b.trait in (A.T_RUNNOW, A.T_SYSTEM, A.T_RUNWITHPOOL))]
+    run_cone = facts.cone(run_roots)
+    cfg_roots = [b for b in facts.bodies.values() if not b.is_closure and b.self_head == A.DB and b.container == "inherent"]
+    cfg_cone = facts.cone(cfg_roots)
+    by_q = dict((b.qname, b) for b in facts.bodies.values())
+    for q in sorted(writes):
+        b = by_q[q]
+        ok = b.key not in run_cone and b.key in cfg_cone
+        report.ob(rule, "write/%s" % q, ok, "exclusive lock taken only while configuring the builder" if ok else
+                  "an exclusive lock is taken in %s%s: a panic while it is held poisons the pool slot for every later dispatch" % (
+                      q, " (reachable while systems run)" if b.key in run_cone else ""), site=writes[q][0], config=config)
+    for q in want_w:
+        root = facts.maybe(q)
+        if root is None:
+            report.ob(rule, "write/%s" % q, False, "expected write lock site missing (anchor %s not found)" % q, config=config)
+            continue
+        reach = [x.qname for x in facts.cone([root]).values() if x.qname in writes]
+        report.ob(rule, "write-reached/%s" % q, bool(reach), "%s fills the pool slot under the exclusive lock (in %s)" % (q.rsplit("::", 1)[1], reach) if reach else
+                  "expected write lock site missing: %s no longer takes the exclusive lock on the pool slot" % q, site=root.loc(), config=config)
     for q in sorted(set(reads) | want_r):
         report.ob(rule, "read/%s" % q, q in want_r and q in reads, "shared (non-poisoning) lock around the dispatch" if q in want_r and q in reads else
                   "unexpected read-lock site %s" % q, site=(reads.get(q) or [None])[0], config=config)
@@ -151,31 +168,74 @@ def pool_source(ctx, report, rule, facts, config):
             detail = "%s runs on the pool stored in self.thread_pool" % name if ok else "the pool used by %s comes from %s" % (name, sorted(leaves))
         report.ob(rule, "pool-of/%s" % q.rsplit("::", 1)[1] + "@" + adt.rsplit("::", 1)[1], ok, detail, site=b.loc(cs[0]) if cs else b.loc(), config=config)
     # add_pool stores its argument
+    from . import semq as Q
+    pool_field = ("field", ("param", 1), "thread_pool", A.DB)
+
+    def slot_of(ev, t):
+        """`t` is (a view of) the Option behind a write guard of self.thread_pool."""
+        s = Q.strip(ev, t)
+        if s[0] == "field" and s[1][0] == "variant" and s[1][2] == "Ok":
+            w = s[1][1]
+            return Q.callee_of(ev, w) is not None and Q.callee_of(ev, w).name in ("write", "try_write") and Q.strip(ev, w[2][0]) == pool_field
+        return False
+
     b = facts.one(A.DB + "::add_pool")
     report.touched(b, config)
-    ps = [p for p in enumerate_paths(b, facts) if p.end == "return"]
-    ok = False
-    for p in ps:
-        for e in p.effects:
-            if e[0] == "store" and e[3][0] == "agg" and e[3][2] == "std::option::Option::Some" and e[3][3] == (("param", 2),):
-                f_, i_, base = S.table_access(b, e[2])
-                lv = ctx.program(facts).origins(b, e[2])
-                if ("field", A.DB, "thread_pool") in lv:
-                    ok = True
+    ev, ends = Q.sem(ctx, facts, b)
+    rets = [e for e in ends if e.kind == "return"]
+    ok = bool(rets)
+    for e in rets:
+        st = [x for x in e.path.events if x[0] == "store" and x[2][0] != "cell" and slot_of(ev, x[2])]
+        if not (len(st) == 1 and st[0][3][0] == "agg" and st[0][3][2] == "std::option::Option::Some" and st[0][3][3] == (("param", 2),)):
+            ok = False
     report.ob(rule, "add_pool", ok, "stores Some(pool) into self.thread_pool" if ok else "add_pool does not store the supplied pool", site=b.loc(), config=config)
     ctp = facts.one(A.DB + "::create_thread_pool")
     for name in ("build", "build_async"):
         b = facts.one(A.DB + "::" + name)
-        bt = prog.bt(b)
-        g = [bb for bb, t in b.normal_calls() if Callee(t["func"]).name == "get_or_insert_with"]
-        ok = len(g) == 1 and bt.call_args(g[0])[1][:2] == ("fnref", ctp.key) and ("field", A.DB, "thread_pool") in prog.origins(b, bt.call_args(g[0])[0])
-        others = [Callee(t["func"]).name for bb, t in b.normal_calls() if Callee(t["func"]).name in ("insert", "replace", "take", "get_or_insert") and "Option" in Callee(t["func"]).path]
-        report.ob(rule, "default-pool/%s" % name, ok and not others, "get_or_insert_with(create_thread_pool): a supplied pool is never overwritten" if ok and not others else
-                  "%s does not use get_or_insert_with(create_thread_pool) on the pool slot" % name, site=b.loc(), config=config)
+        report.touched(b, config)
+        nd = [x.key for x in facts.bodies.values() if x.name in ("new_dispatcher", "new_async") and not x.is_closure]
+        ev, ends = Q.sem(ctx, facts, b, opaque=[ctp.key, A.SB + "::build"] + nd)
+        pr = []
+        rets = [e for e in ends if e.kind == "return"]
+        if not rets:
+            pr.append("no normal path")
+        n_fill = n_keep = 0
+        for e in rets:
+            slots = [ct[1] for (ct, cv, cn, cs) in e.path.conds if ct[0] == "discr" and slot_of(ev, ct[1])]
+            state = e.path.variant(slots[0]) if slots else None
+            st = [x for x in e.path.events if x[0] == "store" and x[2][0] != "cell" and slot_of(ev, x[2])]
+            if state == "Some":
+                n_keep += 1
+                if st:
+                    pr.append("a pool that was supplied is overwritten")
+            elif state == "None":
+                n_fill += 1
+                if not (len(st) == 1 and st[0][3][0] == "agg" and st[0][3][2] == "std::option::Option::Some" and Q.callee_of(ev, st[0][3][3][0]) is not None
+                        and Q.callee_of(ev, st[0][3][3][0]).key == ctp.key):
+                    pr.append("an empty pool slot is not filled with create_thread_pool()")
+            else:
+                if st:
+                    pr.append("the pool slot is written without looking whether a pool was supplied")
+                else:
+                    pr.append("the pool slot is not examined")
+        if rets and not (n_fill and n_keep):
+            pr.append("expected a path that keeps a supplied pool and one that creates the default (%d/%d)" % (n_keep, n_fill))
+        report.ob(rule, "default-pool/%s" % name, not pr, "an empty slot receives create_thread_pool(); a supplied pool is never overwritten" if not pr else
+                  "%s does not fill only an empty pool slot with the default pool: %s" % (name, "; ".join(sorted(set(pr)))), site=b.loc(), config=config)
     report.touched(ctp, config)
     names = [Callee(t["func"]).name for bb, t in ctp.normal_calls()]
     ok = names == ["new", "build", "expect", "new"] or names == ["new", "build", "expect", "new"][:len(names)] and "build" in names
-    report.ob(rule, "create_thread_pool", names == ["new", "build", "expect", "new"], "Arc::new(ThreadPoolBuilder::new().build().expect(..)): calls %s" % names, site=ctp.loc(), config=config)
+    evc, endsc = Q.sem(ctx, facts, ctp)
+    okc = True
+    for e in endsc:
+        if e.kind != "return":
+            continue
+        r = e.ret
+        bld = Q.strip(evc, r[2][0]) if Q.is_call(evc, r, "new") and "Arc" in Q.callee_of(evc, r).path else None
+        okc = okc and bld is not None and bld[0] == "field" and bld[1][0] == "variant" and bld[1][2] == "Ok" and Q.is_call(evc, bld[1][1], "build") and \
+            Q.callee_of(evc, bld[1][1]).crate in ("rayon", "rayon_core") and Q.is_call(evc, bld[1][1][2][0], "new") and not bld[1][1][2][0][2]
+    okc = okc and any(e.kind == "return" for e in endsc)
+    report.ob(rule, "create_thread_pool", okc, "Arc::new(ThreadPoolBuilder::new().build().expect(..))" if okc else "the default pool is not a plain ThreadPoolBuilder::new().build() (calls %s)" % names, site=ctp.loc(), config=config)
     # no thread cap anywhere
     caps = []
     for bd in sorted(facts.bodies.values(), key=lambda b: b.key):
